@@ -247,9 +247,9 @@ PROPS['C17'] = floor_prop(
 PROPS['C17']['tags']['d'] = lambda l: _c.fields('part', 'out', 'inprog')(l) if ' batcher ' in l else None
 PROPS['C20'] = dict(
     modules=['SimProc.Props.C20', 'SimProc.Props.Facts'], prop_files=['SimProc/Props/C20.lean'],
-    families=[('sys', 200, 4000)],
-    tags=tags('ev', 'now', 'res', 'ran', 'runbegin', 'rec', 'd', 'p', 's', 'n', 'm'),
-    monitors=[], nontrivial=has(('res ok',)), stats=op_stats, divergence_is_witness=True,
+    families=[('sys', 200, 4000), ('sysm', 300, 6000)], runner='SysRunner',
+    tags=tags('ev', 'now', 'res', 'ran', 'runbegin', 'rec', 'd', 'p', 's', 'n', 'm', 'sres', 'scount'),
+    monitors=[], nontrivial=has(('res ok', 'sres err', 'sres found')), stats=op_stats, divergence_is_witness=True,
     divergence_text='an asset created while the simulation runs must behave like the model\'s constructor + immediate '
                     'initialisation (= the same asset created before the start, shifted)',
     rule='family sys: assets of every kind constructed before the first run, between runs and from inside events; '
@@ -275,3 +275,9 @@ PROPS['C14'] = dict(
     assumptions=['worker-process equality and independence from hash order / object identity are CHECKED, not proved'],
     partial=['worker processes, hash order: checked only (cannot be proved about CPython from here)'],
 )
+
+PROPS['C06'] = floor_prop(
+    'C06', ['SimProc.Props.C06'], ['SimProc/Props/C06.lean'],
+    {'ev': None, 'now': None, 'ran': None, 'd': _c.fields('part', 'out', 'down', 'cyc', 'off'),
+     'rec': _c.only(('received_part', 'produced_part', 'device_failure', 'supplied_new_part'))},
+    ('rec received_part',), 'non-trivial = a part was accepted by a device')
